@@ -1709,15 +1709,15 @@ def coverage_gate(ctx: Ctx):
 
 
 def search(ctx: Ctx, reason: str):
-    """widened implementation-only search after an obligation broke; sized to stay well under two minutes"""
-    part_a(ctx, 2000, False)
+    """widened implementation-only search after an obligation broke; sized to add well under a minute to a red run"""
+    part_a(ctx, 1200, False)
     if not ctx.failures:
-        part_b(ctx, 300, False)
+        part_b(ctx, 150, False)
     if not ctx.failures:
-        part_c(ctx, 2000, False)
-        part_c_e2e(ctx, 40)
-        part_d(ctx, 4000, False)
-        part_f(ctx, 200, False)
+        part_c(ctx, 1200, False)
+        part_c_e2e(ctx, 30)
+        part_d(ctx, 2500, False)
+        part_f(ctx, 120, False)
 
 
 def replay_value(ctx: Ctx, v: bytes):
